@@ -90,7 +90,7 @@ def indicesStr (s y : Bytes) : List Nat :=
 `indicesRepaired = false` follows the code as it is; `true` (after the fix) additionally requires a
 match to END on a character boundary. -/
 
-def indicesRepaired : Bool := false
+def indicesRepaired : Bool := true
 
 def indicesStrRepaired (s y : Bytes) : List Nat :=
   (indicesStr s y).filter fun k =>
